@@ -777,7 +777,8 @@ impl LunarDay {
     let a_month: isize = self.get_month();
     let b_month: isize = target.get_month();
     if a_month != b_month {
-      return a_month.abs() < b_month.abs();
+      // a regular month precedes its leap twin (same number, negative sign)
+      return if a_month.abs() != b_month.abs() { a_month.abs() < b_month.abs() } else { a_month > b_month };
     }
     self.day < target.get_day()
   }
@@ -791,7 +792,8 @@ impl LunarDay {
     let a_month: isize = self.get_month();
     let b_month: isize = target.get_month();
     if a_month != b_month {
-      return a_month.abs() >= b_month.abs();
+      // a leap month follows the regular month of the same number
+      return if a_month.abs() != b_month.abs() { a_month.abs() > b_month.abs() } else { a_month < b_month };
     }
     self.day > target.get_day()
   }
